@@ -125,7 +125,7 @@ func genRoot(t *rapid.T, m mgen.Model) string {
 
 func genCall(t *rapid.T) CallCase {
 	m := wGen(t, wOpts{Quotes: true})
-	return CallCase{Model: m, Root: genRoot(t, m), Lookup: rapid.IntRange(0, 4).Draw(t, "lookup") == 0}
+	return CallCase{Model: m, Root: genRoot(t, m), Lookup: rapid.IntRange(0, 4).Draw(t, "lookup") == 4}
 }
 
 var extClasses = []string{"org.ext.Ext", "x.Ext", "java.util.Ext"}
